@@ -173,6 +173,8 @@ async def check_response(
         # Better be safe: who knows which sensitive information can be dumped unless kind==Status.
         if isinstance(payload, dict) and payload.get('kind') != 'Status':
             payload = None
+        if not isinstance(payload, (dict, str)):  # e.g. JSON lists, numbers, booleans.
+            payload = None
 
         # Better be safe: if a data blob (not an error) is dumped, protect the logs from overflows.
         if isinstance(payload, str) and len(payload) >= TEXT_ERROR_MAX_SIZE:
